@@ -1,3 +1,4 @@
+;; props: C12
 ; lemma/num-embed: the light same-representation orders used in cmpNum agree with
 ; the order of the exact binary128 embeddings (so cmpNum is "exact value, NaN lowest").
 ; goals are checked one by one with push/pop by the lemma runner: each (goal ...) must be valid.
